@@ -28,7 +28,7 @@ impl Check for C02C {
             _ => {
                 let mut s = seeds();
                 s.sort_by_key(|x| x.len());
-                s.truncate(30);
+                s.truncate(45);
                 Box::new(Edit2 { inner: Edit1::new(s, SIGMA2) })
             }
         }
@@ -37,7 +37,7 @@ impl Check for C02C {
         Meta {
             rule: "stage edit1: ~60 seed documents (one per production / construct) x every string at token-edit distance 1 (delete, duplicate, transpose, replace by / insert each of 48 tokens incl. markup delimiters, controls, U+FFFE/U+FFFF); stage edit2 (thorough): distance 2 on the 12 smallest seeds over 20 structural tokens; stage catalogue: hand-listed semantic violations (entity cycles, '<' through entities, unparsed/external references, non-Char references, duplicate attributes, misplaced declarations, reserved PI targets in every case folding). Each string is classified by the independent reference recogniser; only strings it finds ill-formed are judged (non-trivial = ill-formed); violation iff the implementation returns Ok with empty rest.",
             bounds_quick: "edit distance 1 over 48 tokens on ~60 seeds; catalogue",
-            bounds_thorough: "edit distance 1 (all seeds, and every catalogue entry) and 2 (30 smallest seeds, 20 tokens); catalogue",
+            bounds_thorough: "edit distance 1 (all seeds, and every catalogue entry) and 2 (45 smallest seeds, 20 tokens); catalogue",
             assumptions: &[
                 "reference recogniser mc/src/model/wf.rs decides XML 1.0 (5th ed.) well-formedness for documents without parameter entities; documents using PEs are not judged",
                 "namespace constraints are not demanded (the property lists XML 1.0 constraints only)",
